@@ -121,6 +121,22 @@ def add_quat_core(u):
     gh = 'impl<T>Quaternion<T>'
     u.take(P, gh, 'into_scalar_and_vec3', C(ensures=['res.0 == self.w', 'res.1.x == self.x', 'res.1.y == self.y',
                                                      'res.1.z == self.z']), mode='G')
+    # destructuring conversions (pure element movement): scalar + vector, xyzw, Vec4, Vec3
+    u.take(P, gh, 'from_xyzw', C(ensures=['res.x == x', 'res.y == y', 'res.z == z', 'res.w == w']), mode='G')
+    u.take(P, gh, 'from_scalar_and_vec3', C(requires=['V::obeys_into_spec()'],
+                                            ensures=['res.w == pair.0', 'res.x == pair.1.into_spec().x', 'res.y == pair.1.into_spec().y',
+                                                     'res.z == pair.1.into_spec().z']), mode='G')
+    for hdr, arg, flds in (('impl<T> From<Vec4<T>> for Quaternion<T>', 'v', 'xyzw'), ('impl<T> From<Quaternion<T>> for Vec4<T>', 'v', 'xyzw'),
+                           ('impl<T> From<Quaternion<T>> for Vec3<T>', 'v', 'xyz')):
+        if u.exp.impls(P, hdr):
+            f = u.exp.find_fn(P, hdr, 'from')[1]
+            import re as _re
+            an = _re.search(r'from\s*\(\s*(\w+)\s*:', ' '.join(f.header.split())).group(1)
+            u.take_impl(P, hdr, {'from': C(ensures=['res.%s == %s.%s' % (c, an, c) for c in flds])}, mode='G')
+    if u.exp.impls(P, 'impl<T> From<Vec4<T>> for Quaternion<T>'):
+        u.take(P, gh, 'into_vec4', C(ensures=['res.%s == self.%s' % (c, c) for c in 'xyzw']), mode='G')
+        u.take(P, gh, 'from_vec4', C(ensures=['res.%s == v.%s' % (c, c) for c in 'xyzw']), mode='G')
+        u.take(P, gh, 'into_vec3', C(ensures=['res.%s == self.%s' % (c, c) for c in 'xyz']), mode='G')
     p, q = qleaf('self'), qleaf('rhs')
     u.take_impl(P, 'impl<T> Mul for Quaternion<T> where T: Copy + Mul<Output = T> + Sub<Output = T> + Zero + Add<T, Output = T>',
                 {'mul': C(ensures=qeq('res', hamilton(p, q)))})
